@@ -94,7 +94,7 @@ prop(
     engine="real",
     campaigns=[dict(bin="C03", random=dict(quick=6000, thorough=120000)),
                # Windows half on engine W2 (src/winsim): the _WIN32 build of the whole library on the in-memory Win32 simulator
-               dict(bin="C03win", sweep=True, random=dict(quick=20000, thorough=400000), workers=4)],
+               dict(bin="C03win", sweep=True, random=dict(quick=20000, thorough=400000), workers=4, optional=True)],
     level_text=("Each generated case starts the scripted child through the real reproc_start and compares the child's own "
                 "entry snapshot (argv, envp as a sequence, cwd identity, executed image) with what was requested; parent "
                 "environ, cwd depth (to beyond PATH_MAX), program naming (absolute, ./x, a/b/x, ../x, PATH) and a decoy "
@@ -151,7 +151,7 @@ prop(
     engine="real",
     campaigns=[dict(bin="C10", sweep=True, random=dict(quick=4000, thorough=150000)),
                # Windows half on engine W2 (src/winsim): the _WIN32 build of the whole library on the in-memory Win32 simulator
-               dict(bin="C10win", sweep=True, random=dict(quick=20000, thorough=400000), workers=4)],
+               dict(bin="C10win", sweep=True, random=dict(quick=20000, thorough=400000), workers=4, optional=True)],
     level_text=("All 6 x 6 x 7 effective redirect combinations x all 8 open/closed subsets of the parent's descriptors 0-2 x 6 ways of expressing "
                 "the combination (explicit types; field only / defaults; parent, discard, file and path shorthands) are enumerated (12 096 cases), "
                 "plus random cases varying where user objects live (high numbers, 0-2), close() vs fclose(), nonblocking, start-up input. The oracle "
@@ -180,7 +180,7 @@ prop(
                # concurrent starts from 2-8 (thorough 24) threads on the thread engine, descriptor oracle only
                dict(bin="C20", random=dict(quick=160, thorough=3000), env={"VERIF_C20_FDS_ONLY": "1"}),
                # Windows half on engine W2 (src/winsim): the _WIN32 build of the whole library on the in-memory Win32 simulator
-               dict(bin="C11win", sweep=True, random=dict(quick=20000, thorough=400000), workers=4)],
+               dict(bin="C11win", sweep=True, random=dict(quick=20000, thorough=400000), workers=4, optional=True)],
     level_text=("Generated sets of extra parent descriptors (single, dense ranges, hundreds; always trying limit-1 and limit-2; files, pipes, sockets, "
                 "eventfds, directories; with and without close-on-exec) under generated RLIMIT_NOFILE soft limits (16 ... 4096, thorough 20000) and generated redirect "
                 "configurations; the oracle is the child's own /proc/self/fd listing at entry = {0, 1, 2, one write end of a pipe the parent holds}. Sampling."),
@@ -207,9 +207,9 @@ prop(
     engine="real",
     campaigns=[dict(bin="C04.rel", sweep=True, random=dict(quick=4000, thorough=40000)),
                # Windows half on engine W: every allocation and every Win32 call of process_start fails in turn
-               dict(bin="C04win", sweep=True, random=dict(quick=2000, thorough=40000), workers=4),
+               dict(bin="C04win", sweep=True, random=dict(quick=2000, thorough=40000), workers=4, optional=True),
                # reproc_start of the whole _WIN32 build on the Win32 simulator (engine W2), every allocation / Win32 / Winsock call failing in turn
-               dict(bin="C04w2", sweep=True, random=dict(quick=20000, thorough=400000), workers=4)],
+               dict(bin="C04w2", sweep=True, random=dict(quick=20000, thorough=400000), workers=4, optional=True)],
     level_text=("Every system/library call that reproc_start makes - in the parent and in the forked child before exec - is a fault point discovered from a fault-free run of each scenario; "
                 "quick enumerates every (scenario, fault point, first two applicable errnos) singly, thorough every applicable errno and pairs (second fault at each of the next 48 "
                 "fault points of the path actually taken under the first). Outcome-based oracle: failure => the errno of a real cause, no child left, handle restartable; success => "
@@ -260,7 +260,7 @@ prop(
     engine="real",
     campaigns=[dict(bin="C05.rel", sweep=True, random=dict(quick=3000, thorough=80000)),
                # Windows half on engine W2 (src/winsim): the _WIN32 build of the whole library on the in-memory Win32 simulator
-               dict(bin="C05win", sweep=True, random=dict(quick=20000, thorough=400000), workers=4)],
+               dict(bin="C05win", sweep=True, random=dict(quick=20000, thorough=400000), workers=4, optional=True)],
     level_text=("Ledger invariants kept by the shim at the libc boundary: every close is of a descriptor the library created and still had open; every free matches one live allocation; after "
                 "destroy the descriptor table (numbers and identities) equals the one before reproc_new, no allocation is outstanding, no child start failed on or that was waited for is "
                 "unreaped; user handles, FILEs and the parent's 0-2 keep their identity. Checked on every single fault point of start (quick) and pairs (thorough), incl. close and "
@@ -282,7 +282,7 @@ prop(
     engine="real",
     campaigns=[dict(bin="C06.rel", sweep=True, random=dict(quick=4000, thorough=80000)),
                # Windows half on engine W2 (src/winsim): the _WIN32 build of the whole library on the in-memory Win32 simulator
-               dict(bin="C06win", sweep=True, random=dict(quick=20000, thorough=400000), workers=4)],
+               dict(bin="C06win", sweep=True, random=dict(quick=20000, thorough=400000), workers=4, optional=True)],
     level_text=("The shim's kill and waitpid refuse (and record) any target that is not the positive pid of a live child forked for the handle - nothing else ever reaches the kernel. "
                 "Checked over every single fault point of start followed by wait/terminate/kill on handles that start reported as running (quick), pairs (thorough), and generated histories "
                 "of terminate/kill/wait/stop around the child's exit and after reap: after a successful wait, terminate and kill return 0 and send nothing."),
@@ -344,7 +344,7 @@ prop(
     engine="vtime",
     campaigns=[dict(bin="C09", random=dict(quick=8000, thorough=100000)),
                # Windows half on engine W2 (src/winsim): the _WIN32 build of the whole library on the in-memory Win32 simulator
-               dict(bin="C09win", sweep=True, random=dict(quick=20000, thorough=400000), workers=4)],
+               dict(bin="C09win", sweep=True, random=dict(quick=20000, thorough=400000), workers=4, optional=True)],
     level_text=("1-5 sources (NULL included) with every interest mask; each stream's state is constructed and acknowledged before the poll (not a pipe / open idle / data pending from 1 byte to a "
                 "full pipe / closed by the child / closed by the parent; stdin empty / full / reader gone / closed by the parent; child running / exited / reaped), so with timeout 0 nothing depends on "
                 "timing; some cases poll with a finite or infinite timeout and a scripted later event. Oracle: events subset of interests, NULL sources silent, return value = number of sources with events, "
@@ -365,7 +365,7 @@ prop(
     engine="vtime",
     campaigns=[dict(bin="C01", sweep=True, random=dict(quick=10000, thorough=80000)),
                # Windows half on engine W2 (src/winsim): the _WIN32 build of the whole library on the in-memory Win32 simulator
-               dict(bin="C01win", sweep=True, random=dict(quick=20000, thorough=400000), workers=4)],
+               dict(bin="C01win", sweep=True, random=dict(quick=20000, thorough=400000), workers=4, optional=True)],
     level_text=("Deterministic sweep of all 256 exit codes and all 23 terminating signals (1..31 minus CHLD, CONT, STOP, TSTP, TTIN, TTOU, URG, WINCH; core dumps disabled in the child) with "
                 "wait-only histories, plus random histories of 1-12 (thorough 30) operations from {wait(0|finite|INFINITE|DEADLINE), stop(3 actions), terminate, kill} placed before and after the "
                 "ending on a virtual clock, children that die on or ignore SIGTERM, optional deadline. The ending is commanded by the harness, so the expected value is independent of the library. "
@@ -407,7 +407,7 @@ prop(
     engine="vtime",
     campaigns=[dict(bin="C17", random=dict(quick=10000, thorough=100000)),
                # Windows half on engine W2 (src/winsim): the _WIN32 build of the whole library on the in-memory Win32 simulator
-               dict(bin="C17win", sweep=True, random=dict(quick=20000, thorough=400000), workers=4)],
+               dict(bin="C17win", sweep=True, random=dict(quick=20000, thorough=400000), workers=4, optional=True)],
     level_text=("Reads (stdout/stderr) and writes (stdin) with the pipe state constructed beforehand (empty, partly filled, full = exactly 64 KiB in page-sized writes, far side closed by the child or by its "
                 "exit), sizes 1 B - 1 MiB, nonblocking on and off, a child that is idle for ever, acts at scripted virtual times (writes, reads in page multiples, closes, exits) or is already gone; start-up "
                 "input of 0, 1, 4096, 65535, 65536, 65537 and 2^20 bytes with a child that reads at once, late or never. The virtual-time scheduler's blocking-episode log is the oracle: no episode and "
@@ -447,7 +447,7 @@ prop(
     engine="vtime",
     campaigns=[dict(bin="C02", random=dict(quick=3000, thorough=50000)),
                # Windows half on engine W2 (src/winsim): the _WIN32 build of the whole library on the in-memory Win32 simulator
-               dict(bin="C02win", sweep=True, random=dict(quick=20000, thorough=400000), workers=4)],
+               dict(bin="C02win", sweep=True, random=dict(quick=20000, thorough=400000), workers=4, optional=True)],
     level_text=("Nine cases in ten run on the virtual-time engine: 2-30 interleaved steps of child writes (sizes 0, 1, 2, 7, 4095-4097, 65535-65537, 128 KiB, 1 MiB+3, 3 MiB, 8 MiB and random), child closes, "
                 "child exit, child reads of stdin, parent reads with buffer sizes {0, 1, 7, 4096, 65536, 1 MiB}, parent writes, parent closes and polls; blocking and nonblocking; stderr as its own "
                 "pipe, redirected to stdout (exact merged order checked), or not piped; stdin fed by reproc_write, by start-up input, or closed at once; then everything is drained to the end. One case in "
@@ -541,6 +541,7 @@ W2_ESSENTIAL = {
     "C11": ["start-succeeded", "restarted-after-failure"],
 }
 for _pid, _cls in W2_ESSENTIAL.items():
+    PROPS[_pid]["essential_optional"] = list(_cls) + ["win-alloc-fault", "win-api-fault"]
     for _tier in ("quick", "thorough"):
         if _tier in PROPS[_pid].get("essential", {}):
             PROPS[_pid]["essential"][_tier] = PROPS[_pid]["essential"][_tier] + [c for c in _cls if c not in PROPS[_pid]["essential"][_tier]]
